@@ -14,7 +14,7 @@ CFG = dict(
     theorems=["reachable_inv", "spec_is_from_scratch", "read_fresh", "processed_is_fresh", "eval_frame",
               "reads_idempotent", "exec_only_if_outdated", "exec_only_if_changed", "reexecution_needs_change",
               "version_counts_executions", "struct_version_counts_executions", "version_step_exact",
-              "remembered_length", "inCone_iff_reach", "wf_preserved", "permuted_deps_spurious", "stable_deps_not_spurious"],
+              "remembered_length", "inCone_iff_reach", "wf_preserved", "permuted_deps_spurious", "stable_deps_not_spurious", "permuted_deps_still_fresh_partial"],
     streams=[dict(name="c11", n=dict(quick=6000, thorough=100000))],
     trusted=[T_COMMON[1], T_COMMON[2],
              "hand-written model PolyVerif/Model/Nodes.lean of nodes/struct_node.go, value_node.go, parameter/value.go "
@@ -29,8 +29,9 @@ CFG = dict(
              "type mismatch between an output and a port (reflect.Set panic) is not modelled; ports are all of one value type",
              "Dependencies() order: sorted field names are modelled as port index order; the sort itself (sort.Strings, "
              "reflection) is exercised by c11.holds.deporder, not proved",
-             "permuted_deps_still_fresh (freshness under an arbitrary permutation per enumeration, the pre-2752e26 code) is not proved; "
-             "only the spurious-execution witness permuted_deps_spurious is"],
+             "permuted_deps_still_fresh (freshness of the pre-2752e26 code under an arbitrary permutation per enumeration, whole graphs) is "
+             "not proved and its evaluator is not modelled; proved: the spurious-execution witness permuted_deps_spurious and the "
+             "one-node combinatorial core permuted_deps_still_fresh_partial (parameter dependencies)"],
     assumptions=["single-threaded use (concurrency is C13)",
                  "Go map iteration / reflection behave per the language spec"],
 )
